@@ -49,6 +49,14 @@ func (r *RouteRegistry) RegisterProxyRoute(route string, handler http.HandlerFun
 	r.registerWithMethod(route, wrappedHandler, description, method, true)
 }
 
+// RegisterSecuredRoute registers a route that forwards client requests to a backend and
+// therefore has to pass the full security chain (rate limiting and size limits) like a
+// proxy route, but whose handler resolves its own upstream path, so no route prefix is put
+// into the request context for stripping.
+func (r *RouteRegistry) RegisterSecuredRoute(route string, handler http.HandlerFunc, description, method string) {
+	r.registerWithMethod(route, handler, description, method, true)
+}
+
 func (r *RouteRegistry) registerWithMethod(route string, handler http.HandlerFunc, description, method string, isProxy bool) {
 	r.routes[route] = RouteInfo{
 		Handler:     handler,
